@@ -48,4 +48,4 @@ class GfaFromFile(Contract):
         return [Case("args", [g.Gfa, fname, vl, version, dia], post, heap={obj.oid: {}}, models=models,
                      symbols=dict(vlevel=vl, version=ver, version_is_None=vnone, dialect=dia),
                      replay=lambda w: {"target": "bounded.replay_helpers:from_file_passes_arguments"},
-                     confirm=lambda w, out: out.get("kind") != "return" or out.get("value") is not True)]
+                     confirm=battery_confirm)]
